@@ -10,7 +10,8 @@ package ledger
 // [fv,lv] inside [1,R+1] with lv-fv <= MaxTxnLife = 4); they differ in nothing else, so the
 // txid is a function of (sender, lease, window). R = 6 (quick) / 8 (thorough).
 //
-// A *scenario* picks 3 (one: 4; thorough adds all 28 pairs of same-lease payments over 8
+// A *scenario* picks 3 (two: 4; quick has 7 incl. two same-lease triples "take, expire, re-take,
+// contend"; thorough adds all 20 same-lease triples over 6 windows and all 28 pairs over 8
 // windows) transactions of U that may be committed. Operations:
 //   blk(S)   for every S subset of the scenario, |S| <= 2 (incl. the empty block): build block
 //            Latest+1 with the real BlockEvaluator (TestTransactionGroup + TransactionGroup),
@@ -40,8 +41,8 @@ package ledger
 // The reference never looks at flush/reload/reopen, so "identical before and after every
 // restart" is part of every comparison.
 //
-// State key: see key() — round, DB round, live committed set, live txTail memory, live
-// persisted tail.
+// State key: see key() — round, DB round, live committed set, everything txTail still holds
+// in memory and in the persisted tail (expired entries included).
 //
 // Not covered: transaction groups > 1, more than 2 txns per block, rekeyed senders,
 // consensus upgrades inside the window (FixTransactionLeases fixed true), power-loss
@@ -60,6 +61,9 @@ package ledger
 //   4. eval/cow.go checkDup    `Hdr.Round <= expires` -> `<` (in-block lease, lastValid == round)
 //   5. txtail.go commitRound   forgetBefore `newBase()+1` -> `newBase()+3` (persisted tail too
 //      short; needs commit, 3 more rounds, flush, restart)
+//   Seeded by independent agents: C11-A DETECTED; C11-B (checkDup lease scan `break`s at an
+//   expired record of the same key) was MISSED by the first version because key() merged
+//   "lease taken and expired" with "never taken"; DETECTED since key() keeps expired entries.
 
 import (
 	"context"
@@ -409,16 +413,21 @@ func (s *c11Sys) apply(op int, masks []uint) (bool, error) {
 // key: canonical form of everything that can influence FUTURE duplicate detection.
 //
 // Kept exactly: latest round, tracker DB round, per scenario txn {uncommitted, committed and
-// still inside its window, dead}, txTail.lowWaterMark, and the LIVE content of the txTail
-// memory and of the persisted tail rows. "Live" = entries whose lastValid / lease expiry is
-// >= Latest+1: every future query has current >= Latest+1, checkDup only consults
-// lastValid[lv] for lv >= current and lease entries with expiry >= current, and a future
-// loadFromDisk only keeps entries with lastValid > Latest. Dropped (cannot change any future
-// CheckDup/evaluator answer): entries already expired, the confirmation-round delta stored
-// next to a txid (only used by CheckConfirmedTail), which round a live lease was taken in,
-// the block-header cache and the not-yet-persisted serialized deltas (both functions of the
-// block history, which the blockQueue holds). The disk digest keeps row membership, so "the
-// same transaction on disk" and "still to be replayed from the block DB" stay distinct.
+// still inside its window, dead}, txTail.lowWaterMark;
+//   * txid index: the entries of txTail.lastValid and of the persisted rows with lastValid >=
+//     Latest+1. checkDup indexes lastValid[lv] with the lv of the queried transaction, and a
+//     queried transaction with lv < current is dead (rejected by the window check, and a
+//     future loadFromDisk only keeps lastValid > Latest), so older buckets cannot be reached;
+//   * leases: EVERY (round, sender, lease, expiry) record txTail.recent and the persisted rows
+//     still hold, expired ones included: checkDup scans all rounds of the last MaxTxnLife, so
+//     an expired record is still visited.
+// Dropped: the confirmation-round delta stored next to a txid (only CheckConfirmedTail reads
+// it), the block-header cache and the not-yet-persisted serialized deltas (functions of the
+// block history, which the blockQueue holds).
+// (An earlier version also dropped expired lease records as "unable to influence any
+// answer" — true for the correct code, but it merged "lease taken and expired" with "never
+// taken" and so hid seeded change C11-B, whose scan stops at an expired record. Lease states
+// are now only merged once the implementation itself has forgotten the difference.)
 func (s *c11Sys) key() string {
 	if s.d == nil || s.d.l == nil {
 		return "dead"
@@ -453,11 +462,9 @@ func (s *c11Sys) key() string {
 	sort.Strings(ents)
 	fmt.Fprintf(&b, "lv%v|", ents)
 	ents = ents[:0]
-	for _, rl := range t.recent {
+	for rnd, rl := range t.recent {
 		for k, exp := range rl.txleases {
-			if exp >= next {
-				ents = append(ents, fmt.Sprintf("%x/%x:%d", k.Sender[:2], k.Lease[:2], exp))
-			}
+			ents = append(ents, fmt.Sprintf("%d:%x/%x:%d", rnd, k.Sender[:2], k.Lease[:2], exp))
 		}
 	}
 	sort.Strings(ents)
@@ -485,9 +492,11 @@ func (s *c11Sys) key() string {
 					}
 				}
 				for _, le := range rd.Leases {
-					if int(le.TxnIdx) < len(rd.LastValid) && rd.LastValid[le.TxnIdx] >= next {
-						ents = append(ents, fmt.Sprintf("L%x/%x:%d", le.Sender[:2], le.Lease[:2], rd.LastValid[le.TxnIdx]))
+					exp := basics.Round(0)
+					if int(le.TxnIdx) < len(rd.LastValid) {
+						exp = rd.LastValid[le.TxnIdx]
 					}
+					ents = append(ents, fmt.Sprintf("%d:L%x/%x:%d", rd.Hdr.Round, le.Sender[:2], le.Lease[:2], exp))
 				}
 			}
 			sort.Strings(ents)
@@ -516,6 +525,9 @@ func c11Scenarios() []c11Scenario {
 		{"lease-isolation", [][4]int{{A, 1, 1, 5}, {B, 1, 1, 5}, {A, 2, 2, 6}}},
 		{"lease-short", [][4]int{{A, 1, 1, 1}, {A, 1, 2, 2}, {A, 0, 1, 5}}},
 		{"lease-late", [][4]int{{B, 2, 2, 6}, {B, 2, 3, 7}, {B, 0, 3, 7}}},
+		// take, expire, re-take, contend: three holders of one (sender, lease)
+		{"triple-1", [][4]int{{A, 1, 1, 1}, {A, 1, 2, 6}, {A, 1, 3, 7}}},
+		{"triple-2", [][4]int{{B, 1, 1, 2}, {B, 1, 3, 5}, {B, 1, 4, 7}}},
 		// thorough only from here
 		{"lease-chain", [][4]int{{A, 1, 1, 2}, {A, 1, 3, 4}, {A, 1, 5, 7}}},
 		{"mixed-1", [][4]int{{A, 1, 2, 4}, {B, 1, 2, 6}, {A, 0, 2, 4}}},
@@ -523,7 +535,27 @@ func c11Scenarios() []c11Scenario {
 		{"mixed-3", [][4]int{{A, 2, 3, 7}, {A, 2, 4, 4}, {A, 1, 3, 7}}},
 		{"late-windows", [][4]int{{A, 1, 4, 8}, {A, 1, 5, 9}, {A, 0, 4, 8}}},
 		{"four-leases", [][4]int{{A, 1, 1, 4}, {A, 1, 3, 7}, {B, 1, 2, 6}, {A, 1, 6, 9}}},
+		{"four-chain", [][4]int{{A, 2, 1, 1}, {A, 2, 2, 3}, {A, 2, 4, 6}, {A, 2, 5, 9}}},
 	}
+}
+
+// c11TripleScenarios (thorough): every 3-subset of same-(sender,lease) payments over 6
+// windows (20 triples): all ways a lease can be taken, expire, be re-taken and be contended
+// inside the horizon.
+func c11TripleScenarios() []c11Scenario {
+	w := [][2]int{{1, 1}, {1, 3}, {2, 4}, {3, 7}, {5, 9}, {6, 6}}
+	var out []c11Scenario
+	for i := 0; i < len(w); i++ {
+		for j := i + 1; j < len(w); j++ {
+			for k := j + 1; k < len(w); k++ {
+				out = append(out, c11Scenario{
+					name: fmt.Sprintf("triple[%d,%d]+[%d,%d]+[%d,%d]", w[i][0], w[i][1], w[j][0], w[j][1], w[k][0], w[k][1]),
+					txs:  [][4]int{{1, 2, w[i][0], w[i][1]}, {1, 2, w[j][0], w[j][1]}, {1, 2, w[k][0], w[k][1]}},
+				})
+			}
+		}
+	}
+	return out
 }
 
 // c11PairScenarios (thorough): every unordered pair of same-(sender,lease) payments over a
@@ -552,7 +584,7 @@ type c11Config struct {
 func c11Configs() []c11Config {
 	if !ve.Thorough() {
 		return []c11Config{
-			{0, 0, true}, {1, 0, true}, {2, 0, true}, {3, 0, true}, {4, 0, true},
+			{0, 0, true}, {1, 0, true}, {2, 0, true}, {3, 0, true}, {4, 0, true}, {5, 0, true}, {6, 0, true},
 			{1, 2, true}, {0, 2, false},
 		}
 	}
@@ -567,7 +599,11 @@ func c11Configs() []c11Config {
 	for _, sc := range []int{0, 1, 2} {
 		cfgs = append(cfgs, c11Config{sc, 0, false}, c11Config{sc, 1, false})
 	}
-	for i := range c11PairScenarios() {
+	npairs := len(c11PairScenarios())
+	for i := range c11TripleScenarios() {
+		cfgs = append(cfgs, c11Config{nfixed + npairs + i, 0, true})
+	}
+	for i := 0; i < npairs; i++ {
 		cfgs = append(cfgs, c11Config{nfixed + i, 0, true})
 	}
 	return cfgs
@@ -581,7 +617,7 @@ func TestVerif_C11(t *testing.T) {
 	proto := c11RegisterProto()
 	maxRound := basics.Round(ve.Pick(6, 8))
 	u := c11Universe(maxRound + 1)
-	all := append(c11Scenarios(), c11PairScenarios()...)
+	all := append(append(c11Scenarios(), c11PairScenarios()...), c11TripleScenarios()...)
 	var cov ve.Coverage
 	cov.Exhaustive = true
 	nrun := 0
